@@ -7,6 +7,7 @@ import (
 	"os"
 	"path/filepath"
 	"strconv"
+	"strings"
 	"testing"
 	"time"
 
@@ -20,7 +21,9 @@ type c20Case struct {
 	N       int    `json:"n"`       // bits, multiple of 8
 	OutKind string `json:"outkind"` // default | relative | nested | absolute | preexisting | dotdot
 	OutName string `json:"outname,omitempty"`
-	Cpus    string `json:"cpus,omitempty"` // taskset mask: runtime.NumCPU() = number of writer goroutines
+	PrevS   int    `json:"prev_s,omitempty"` // an earlier run into the same directory (history): s
+	PrevN   int    `json:"prev_n,omitempty"` // ... and n of that earlier run
+	Cpus    string `json:"cpus,omitempty"`   // taskset mask: runtime.NumCPU() = number of writer goroutines
 	Procs   int    `json:"gomaxprocs,omitempty"`
 }
 
@@ -70,8 +73,23 @@ func checkC20(c c20Case) (Outcome, error) {
 	if c.S > numcpu {
 		out.Classes = append(out.Classes, "s>NumCPU")
 	}
-	pr := runTool(cwd, 5*time.Minute, c.Procs, c.Cpus, bin, args...)
 	what := fmt.Sprintf("rdgen %v (cwd scratch, NumCPU=%d)", args, numcpu)
+	if c.PrevS > 0 {
+		// history: an earlier run into the same directory with other s / n
+		pargs := []string{"-s", strconv.Itoa(c.PrevS), "-n", strconv.Itoa(c.PrevN)}
+		if arg != "" {
+			pargs = append(pargs, "-o", arg)
+		}
+		if p0 := runTool(cwd, 5*time.Minute, c.Procs, c.Cpus, bin, pargs...); p0.exit != 0 || p0.stuck {
+			return Outcome{Skip: "earlier run failed (judged by its own case)"}, nil
+		}
+		for i := c.S; i < c.PrevS; i++ {
+			foreign[fmt.Sprintf("random%d.bin", i)] = true // left over from the earlier run: pre-existing files
+		}
+		out.Classes = append(out.Classes, "reused-directory")
+		what = fmt.Sprintf("rdgen %v after an earlier rdgen %v into the same directory", args, pargs)
+	}
+	pr := runTool(cwd, 5*time.Minute, c.Procs, c.Cpus, bin, args...)
 	if pr.stuck {
 		if pr.deadlock {
 			return out, violation("no-termination", "%s does not terminate: every goroutine is blocked\n%s", what, clip(pr.stderr, 2000))
@@ -116,6 +134,9 @@ func checkC20(c c20Case) (Outcome, error) {
 		return out, violation("stray", "%s created unexpected files: %v", what, stray)
 	}
 	for f := range foreign {
+		if strings.HasPrefix(f, "random") && c.PrevS > 0 && f != "random-old.bin" && f != "randomX.bin" {
+			continue // left-overs of the earlier run
+		}
 		if b, err := os.ReadFile(filepath.Join(want, f)); err != nil || string(b) != "foreign" {
 			return out, violation("foreign", "%s damaged the pre-existing file %s", what, f)
 		}
@@ -139,7 +160,7 @@ func checkC20(c c20Case) (Outcome, error) {
 			}
 		}
 	}
-	if c.N == 20000 || c.N == 1000000 || c.N == 100000000 {
+	if (c.N == 20000 || c.N == 1000000 || c.N == 100000000) && c.PrevS == 0 {
 		out.Classes = append(out.Classes, "detector-count")
 		b, err := shimCall("VERIF_SHIM=count", "VERIF_SHIM_DIR="+want)
 		if err != nil {
@@ -180,6 +201,13 @@ func genC20(t *rapid.T) c20Case {
 	}
 	c.OutKind = rapid.SampledFrom([]string{"default", "relative", "nested", "absolute", "preexisting", "dotdot"}).Draw(t, "outkind")
 	c.OutName = rapid.StringMatching(`[a-zA-Z0-9_]{1,8}`).Draw(t, "outname")
+	if rapid.IntRange(0, 3).Draw(t, "history") == 0 {
+		c.PrevS = rapid.IntRange(1, 12).Draw(t, "prev_s")
+		c.PrevN = 8 * rapid.IntRange(1, 20000).Draw(t, "prev_nbytes")
+		if rapid.Bool().Draw(t, "prev_std") {
+			c.PrevN = rapid.SampledFrom([]int{20000, 1000000}).Draw(t, "prev_n")
+		}
+	}
 	c.Cpus = rapid.SampledFrom([]string{"", "0", "0-2"}).Draw(t, "cpus")
 	c.Procs = rapid.SampledFrom([]int{0, 1, 2}).Draw(t, "gomaxprocs")
 	return c
